@@ -6,7 +6,10 @@ import (
 	"os"
 	"path/filepath"
 	"strings"
+	"time"
 
+	time2 "github.com/oxia-db/oxia/common/time"
+	"github.com/oxia-db/oxia/proto"
 	"github.com/oxia-db/oxia/server/util/crc"
 	"github.com/oxia-db/oxia/server/wal"
 	"github.com/oxia-db/oxia/server/wal/codec"
@@ -184,6 +187,59 @@ func metaTok(f []string, pfx string) string {
 		}
 	}
 	return ""
+}
+
+// cw.shortfile len=<L> seg=<S> recs=<n> : the file of the current segment is shorter than the segment size (a crash
+// between the creation of the file and the write that gives it its size, or while the file system had not yet
+// persisted the size); the first L bytes hold n records. The WAL is opened on it, in a process of its own:
+// touching a mapping behind the end of the file is a SIGBUS, which no recover() catches.
+func shortFileExec(op string, f []string) string {
+	if os.Getenv("OXV_ISOLATED") == "" {
+		return core.Isolated("C10", op, 30*time.Second)
+	}
+	var l, seg, n int
+	fmt.Sscan(metaTok(f, "len="), &l)
+	fmt.Sscan(metaTok(f, "seg="), &seg)
+	fmt.Sscan(metaTok(f, "recs="), &n)
+	c := codecFor("2")
+	img := make([]byte, seg)
+	off := uint32(0)
+	var crc uint32
+	for i := 0; i < n; i++ {
+		p := []byte(fmt.Sprintf("payload-%d", i))
+		if int(off)+int(c.GetHeaderSize())+len(p) > l {
+			break
+		}
+		var sz uint32
+		sz, crc = c.WriteRecord(img, off, crc, p)
+		off += sz
+	}
+	dir, err := os.MkdirTemp(workTmp(), "c10sf-")
+	if err != nil {
+		return "err:other:" + err.Error()
+	}
+	defer os.RemoveAll(dir)
+	wdir := filepath.Join(dir, "ns", "shard-1")
+	_ = os.MkdirAll(wdir, 0o755)
+	if err := os.WriteFile(filepath.Join(wdir, "0.txnx"), img[:l], 0o644); err != nil {
+		return "err:other:" + err.Error()
+	}
+	w, err := wal.VerifNewWal("ns", 1, &wal.FactoryOptions{BaseWalDir: dir, Retention: time.Hour, SegmentSize: int32(seg), SyncData: false},
+		nil, &time2.MockedClock{}, 24*time.Hour)
+	if err != nil {
+		return codecErr(err)
+	}
+	defer w.Close()
+	last := w.LastOffset()
+	var app int
+	fmt.Sscan(metaTok(f, "app="), &app)
+	for i := 0; i < app; i++ {
+		last++
+		if err := w.Append(&proto.LogEntry{Term: 1, Offset: last, Value: []byte("appended-entry-of-some-length")}); err != nil {
+			return fmt.Sprintf("ok last=%d append:%s", last-1, codecErr(err))
+		}
+	}
+	return fmt.Sprintf("ok last=%d", w.LastOffset())
 }
 
 var _ = codec.ErrDataCorrupted
